@@ -30,7 +30,7 @@ Definition conforms (cs : list N) (mr : mres value) (sr : sres value) : Prop :=
       sr = SOk v cs' (off st') l /\ cs = consumed ++ cs' /\
       off st' = length (encode_str consumed) /\ rest st' = encode_str cs'
   | MErr e => exists l, sr = SFail l /\ Some e = furthest_latest None l
-  | MPanic _ => True
+  | MPanic p => p <> PanicShape
   | MFuel => sr = SFuel
   end.
 
@@ -51,7 +51,7 @@ Proof.
   - destruct C as [w [m [cs' [l [E1 [E2 [E3 [E4 [E5 E6]]]]]]]]]. subst w.
     exists m, cs', l. repeat split; auto.
   - exact C.
-  - exact I.
+  - exact C.
   - exact C.
 Qed.
 
